@@ -43,7 +43,10 @@ RULE = ("cases come from one PRNG seeded by VERIF_SEED plus fixed catalogues: th
         "buidl/test/test_hd.py, seeds of 16..64 bytes, the four networks (and an unknown one), every one of the 20 "
         "SLIP-132 version prefixes, child indexes 0, 1, 2^31-1, 2^31, 2^32-1, 2^32, -1 and random, paths of depth "
         "0..8 in ', h, H notation with m or M, a catalogue of malformed paths; a case is non-trivial when it reaches "
-        "a key derivation or a codec; distinct = distinct request lines / predicate cases")
+        "a key derivation or a codec; distinct = distinct request lines / predicate cases; object-reuse histories: one "
+        "HDPrivateKey traversed along several paths and one key object per path asked for xprv/xpub in varying prefixes, "
+        "raw_serialize(), repeated and different children and public traversals in one process, every answer compared "
+        "with the stateless model on the current arguments")
 CLAUSES = {
     "private then public = public derivation, every field (i < 2^31)":
         "proved (pub_priv_child_consistent, pub_priv_child_converse, priv_pub_traverse_consistent; the zero child key / point at "
@@ -211,9 +214,69 @@ def _impl(t):
     raise UnknownOp(op)
 
 
+def _k_step(op, k, t):
+    """one step on a key object `k` (HDPrivateKey at some path): the observation of request `t`"""
+    if op == "k_ser":
+        res = []
+        for f in (lambda: xs(k.xprv(version=optb(t[6]))), lambda: xs(k.xpub(version=optb(t[7]))),
+                  lambda: xb(k.pub.raw_serialize())):
+            try:
+                res.append(f())
+            except Exception:
+                res.append(REJECT)
+        return " ".join(res)
+    if op == "k_child":
+        return dump_priv(k.child(int(t[6])))
+    if op == "k_pubchild":
+        return dump_pub(k.pub.child(int(t[6])))
+    if op == "k_pubtrav":
+        return dump_pub(k.pub.traverse(uns(t[6])))
+    raise UnknownOp(op)
+
+
+K_OPS = ("k_ser", "k_child", "k_pubchild", "k_pubtrav")
+
+
+def impl_history(lines):
+    """evaluate request lines in order in ONE process on SHARED objects: one HDPrivateKey per (seed, network, versions)
+    that is traversed again and again along different paths, and one derived key object per (root, path) that is asked
+    for xprv / xpub in several version prefixes, raw_serialize(), children and public traversals in sequence.  A memo
+    kept on a key object (HDPublicKey._raw) or any other state leaking between calls shows up as an answer that differs
+    from the stateless model evaluated on the current arguments."""
+    from buidl.hd import HDPrivateKey
+    roots, keys, out = {}, {}, []
+    for line in lines:
+        t = line.split(" ")
+        try:
+            op = t[0]
+            if op == "priv_trav" or op in K_OPS:
+                rk = tuple(t[1:5])
+                if rk not in roots:
+                    roots[rk] = HDPrivateKey.from_seed(unx(t[1]), network=uns(t[2]), priv_version=optb(t[3]), pub_version=optb(t[4]))
+                root = roots[rk]
+                path = uns(t[5])
+                if op == "priv_trav":
+                    k = root.traverse(path)            # the shared root is traversed afresh
+                    keys.setdefault((rk, path), k)     # the first object at this path serves the later k_* steps
+                    out.append(dump_priv(k))
+                else:
+                    if (rk, path) not in keys:
+                        keys[(rk, path)] = root.traverse(path)
+                    out.append(_k_step(op, keys[(rk, path)], t))
+            else:
+                out.append(_impl(t))
+        except (UnknownOp, MachineryError):
+            raise
+        except Exception:
+            out.append(REJECT)
+    return out
+
+
 def impl_line(line):
     t = line.split(" ")
     try:
+        if t[0] in K_OPS:
+            return impl_history([line])[0]
         return _impl(t)
     except (UnknownOp, MachineryError):
         raise
@@ -498,6 +561,36 @@ def run(ctx):
         lines.append(("blind_bad", f"blind {xs(xpub)} {xs(start + '/1')} {xs('m/1')}"))
         lines.append(("blind_bad", f"blind {xs(xpub)} {xs(start)} {xs(rng.choice(BAD_PATHS + ['m/1h', 'M/1', 'm/1//2']))}"))
 
+    # ---- object-reuse histories: one root object traversed along several paths, one key object per path asked for
+    # xprv/xpub in several prefixes, raw_serialize(), the same and different children, public traversals — in sequence
+    hists = []
+    for k in range(ctx.n(6)):
+        seed = rng.choice(seeds)
+        net = NETS[k % 4]
+        pv = rng.choice(["-", "x" + rng.choice(PRIV_VERSIONS)])
+        bv = rng.choice(["-", "x" + rng.choice(PUB_VERSIONS)])
+        head = f"{xb(seed)} {xs(net)} {pv} {bv}"
+        paths = ["m"] + [rand_path(rng, maxdepth=2, upper=False) for _ in range(2)]
+        steps = []
+        for path in paths:
+            i1, i2 = rng.randrange(2**31), rng.choice([0, 2**31, rng.randrange(2**31, 2**32)])
+            zp, zv = "x" + rng.choice(PUB_VERSIONS), "x" + rng.choice(PRIV_VERSIONS)
+            sub = rand_path(rng, maxdepth=2, hardened=False, upper=False)
+            block = [f"priv_trav {head} {xs(path)}",
+                     f"k_ser {head} {xs(path)} - -", f"k_ser {head} {xs(path)} {zv} {zp}", f"k_ser {head} {xs(path)} - -",
+                     f"k_ser {head} {xs(path)} - x{rng.choice(PUB_VERSIONS)}",
+                     f"k_child {head} {xs(path)} {i1}", f"k_child {head} {xs(path)} {i1}", f"k_child {head} {xs(path)} {i2}",
+                     f"k_child {head} {xs(path)} {i1}",
+                     f"k_pubchild {head} {xs(path)} {i1}", f"k_pubchild {head} {xs(path)} {i1}",
+                     f"k_pubchild {head} {xs(path)} {rng.randrange(2**31)}",
+                     f"k_pubtrav {head} {xs(path)} {xs(sub)}", f"k_pubtrav {head} {xs(path)} {xs('m')}",
+                     f"k_pubtrav {head} {xs(path)} {xs(sub)}", f"k_ser {head} {xs(path)} - -",
+                     f"priv_trav {head} {xs(path)}"]
+            steps += block
+        # interleave the blocks of the three paths, keeping the order inside each block
+        order = sorted(range(len(steps)), key=lambda j: (j % 17) * 3 + rng.random() * 2.5 + (j // 17) * 0.1)
+        hists.append([steps[j] for j in order])
+
     # ---- run both sides (shuffled so that the EC-heavy requests are spread over all workers)
     rng.shuffle(lines)
     rng.shuffle(preds)
@@ -507,6 +600,13 @@ def run(ctx):
     answers = batch_parallel(drv, [model_line(l) for l in reqs], workers=ctx.workers)
     t1 = time.time()
     impls = pmap(impl_line, reqs, workers=ctx.workers, chunksize=2)
+    hist_impl = pmap(impl_history, hists, workers=ctx.workers, chunksize=1)
+    hflat = [(hi, si, l) for hi, h in enumerate(hists) for si, l in enumerate(h)]
+    hmodel = batch_parallel(drv, [model_line(l) for _, _, l in hflat], workers=ctx.workers)
+    for (hi, si, l), model in zip(hflat, hmodel):
+        case = {"request": l, "hist": hists[hi], "step": si}
+        rec.compare("history", case, hist_impl[hi][si], model, determined=True, key=f"{hi}:{si}:{l[:300]}")
+        rec.count("history:" + l.split(" ")[0])
     t2 = time.time()
     seen = {}
     for (kind, line), model, impl in zip(lines, answers, impls):
@@ -557,6 +657,8 @@ def _reserialise(a):
 def replay(ctx, v):
     """re-execute one recorded violation exactly; True if it still violates"""
     case = v["case"]
+    if "hist" in case:
+        return impl_history(case["hist"])[case["step"]] != ctx.driver("drv_c08").one(model_line(case["request"]))
     line = case.get("line") or case.get("request")
     if line is not None:
         return impl_line(line) != ctx.driver("drv_c08").one(model_line(line))
